@@ -323,12 +323,13 @@ func optStr(p *int64) string {
 	return strconv.FormatInt(*p, 10)
 }
 
-// Op kinds: add step stop append direct config
+// Op kinds: add step stop append direct config client
 type Op struct {
 	K  string    `json:"k"`
 	R  *RecSpec  `json:"r,omitempty"`
 	Rs []RecSpec `json:"rs,omitempty"`
 	C  *ConfSpec `json:"c,omitempty"`
+	N  int       `json:"n,omitempty"` // client: SetTcpClient(client number N); 0 is the client given at construction
 }
 
 // Case is one deterministic history.
@@ -409,6 +410,8 @@ func (c *Case) driverLine(recs map[int]*Rec) string {
 			}
 		case "config":
 			sb.WriteString("c:" + optStr(o.C.QueueSize) + "," + optStr(o.C.MaxWait) + "," + optStr(o.C.MaxBuf) + "," + optStr(o.C.ZipMin))
+		case "client":
+			sb.WriteString("k:" + strconv.Itoa(o.N))
 		}
 	}
 	if c.Fault != "" {
@@ -442,6 +445,8 @@ func (c *Case) canon() string {
 			sb.WriteString(");")
 		case "config":
 			sb.WriteString("c(" + optStr(o.C.QueueSize) + "," + optStr(o.C.MaxWait) + "," + optStr(o.C.MaxBuf) + "," + optStr(o.C.ZipMin) + ");")
+		case "client":
+			sb.WriteString("k" + strconv.Itoa(o.N) + ";")
 		default:
 			sb.WriteString(o.K[:2] + ";")
 		}
